@@ -14,7 +14,8 @@
 From Coq Require Import List Arith NArith Bool.
 Import ListNotations.
 Require Import Aiuti.Buffer Aiuti.BufferCore Aiuti.BufferFlag Aiuti.BufferInv Aiuti.BufferJoin
-               Aiuti.BufferQuiet Aiuti.BufferProgress Aiuti.BufferWait Aiuti.BufferReturn Aiuti.Case_Buffer.
+               Aiuti.BufferQuiet Aiuti.BufferProgress Aiuti.BufferWait Aiuti.BufferReturn Aiuti.Case_Buffer
+               Aiuti.Case_C07 Aiuti.BufferMon.
 
 (* The barrier.  For EVERY history evs and next event e: if WaitRet w is observed
    in the macro step of e, then the history contains the (accepted, i.e. live
@@ -129,6 +130,32 @@ Theorem shutdown_terminates :
 Proof. exact shutdown_lemma. Qed.
 Print Assumptions shutdown_terminates.
 
+(* The trace monitor used on implementation traces is Case_C07.ok = ok_shut && ok_walk.
+   Its shutdown part is COMPLETE: it accepts the model's own trace of every event
+   list (no false alarm where implementation and model agree) ... *)
+Theorem shutdown_monitor_complete :
+  forall (T : N) (evs : list event), ok_shut (Case T evs (trace T evs)) = true.
+Proof. exact shut_ok_complete. Qed.
+Print Assumptions shutdown_monitor_complete.
+
+(* ... and SOUND, independently of the model: in any (input, observed trace) it
+   accepts, no DaemonEnded is observed as long as no Shutdown was scripted; the
+   step of the first Shutdown shows exactly [DaemonEnded]; every later step shows
+   nothing at all. *)
+Theorem shutdown_monitor_sound :
+  forall (evs : list event) (obss : list (list obs)),
+    shut_ok evs obss = true ->
+    (~ In Shutdown evs -> length obss = length evs /\ forall o, In o obss -> has_ended o = false) /\
+    (forall pre post, evs = pre ++ Shutdown :: post -> ~ In Shutdown pre ->
+       exists opre, obss = opre ++ [DaemonEnded] :: map (fun _ => []) post /\ length opre = length pre /\
+                    forall o, In o opre -> has_ended o = false).
+Proof. exact shut_ok_sound. Qed.
+Print Assumptions shutdown_monitor_sound.
+
+Theorem monitor_implies_shutdown_part : forall c, Case_C07.ok c = true -> ok_shut c = true.
+Proof. exact ok_implies_shut. Qed.
+Print Assumptions monitor_implies_shutdown_part.
+
 (* ---- non-vacuity ---------------------------------------------------------------------- *)
 
 (* barrier: a wait() issued while the function runs, with a submission queued
@@ -185,3 +212,11 @@ Example shutdown_stages :
      after [Submit 0 (Plain 1); Advance 8] = [FnStart 0 [1] 8%N; DaemonEnded] /\
   after [Submit 0 (Plain 1); Advance 8; Wait 0 true] = [FnStart 0 [1] 8%N; DaemonEnded].
 Proof. vm_compute. repeat split; try reflexivity; eauto. Qed.
+
+(* the shutdown sub-monitor rejects a call after the shutdown, a missing DaemonEnded, a premature one *)
+Example shutdown_monitor_rejects :
+  shut_ok [Submit 0 (Plain 1); Shutdown; Advance 9] [[]; [DaemonEnded]; [FnStart 0 [1] 8%N]] = false /\
+  shut_ok [Submit 0 (Plain 1); Shutdown] [[]; []] = false /\
+  shut_ok [Submit 0 (Plain 1); Advance 9] [[]; [DaemonEnded]] = false /\
+  shut_ok [Submit 0 (Plain 1); Shutdown; Advance 9] [[]; [DaemonEnded]; []] = true.
+Proof. vm_compute. repeat split; reflexivity. Qed.
